@@ -1,9 +1,105 @@
-(* C17 — consistent hashing: property theorems (placeholder while the pipeline is brought up). *)
-From Coq Require Import ZArith List Bool.
+(* C17 — Consistent-hash lookups are stable; membership changes move a minimum of keys.
+   Only the property theorems: each is closed by lemmas of C17/Proofs.v and followed by
+   Print Assumptions.  Everything is quantified over an ARBITRARY hash function, every
+   history of AddNode/RemoveNode calls over arbitrary member names and every key; there is
+   no hypothesis about collisions between replica points (since fix b0007b4 AddNode keeps
+   the owner of an occupied point and RemoveNode deletes only points owned by the leaving
+   member, which is what the model transcribes). *)
+From Coq Require Import ZArith List Bool Sorting.Sorted.
 From FV Require Import C17.Model C17.Proofs.
 Import ListNotations.
 Open Scope Z_scope.
 
-Theorem c17_readd_noop : forall hash n s, mem_name n (nodes s) = true -> add_node hash n s = s.
-Proof. exact readd_noop. Qed.
-Print Assumptions c17_readd_noop.
+(* "A lookup on a non-empty ring always returns a current member"
+   (non-empty ring = at least one point on the circle; `nodes` is the member set) *)
+Theorem c17_member : forall hash ops key,
+  circle (run hash ops) <> [] ->
+  exists n, get_node_by hash key (run hash ops) = Some n /\ In n (nodes (run hash ops)).
+Proof. intros hash ops key H. apply member; [apply inv_run | exact H]. Qed.
+Print Assumptions c17_member.
+
+(* the member set is what the history says: the names added and not removed since *)
+Theorem c17_members_are_added_not_removed : forall hash ops n,
+  In n (nodes (run hash ops)) <->
+  exists before after, ops = before ++ Add n :: after /\ ~ In (Remove n) after.
+Proof. exact members_spec. Qed.
+Print Assumptions c17_members_are_added_not_removed.
+
+(* "the same key maps to the same member for as long as membership is unchanged":
+   a call that leaves the set of members as it is (adding a member again, removing a name
+   that is not a member) leaves the ring, hence every lookup, as it is; lookups themselves
+   do not change the ring (get_node_by is a function of the ring). *)
+Theorem c17_stable : forall hash ops o key,
+  (forall m, In m (nodes (step hash (run hash ops) o)) <-> In m (nodes (run hash ops))) ->
+  get_node_by hash key (step hash (run hash ops) o) = get_node_by hash key (run hash ops).
+Proof. intros hash ops o key H. rewrite (stable hash _ o (inv_run hash ops) H). reflexivity. Qed.
+Print Assumptions c17_stable.
+
+(* "Adding a member moves a key only if it moves to the new member" *)
+Theorem c17_add_moves_only_to_new : forall hash ops x key n',
+  get_node_by hash key (run hash (ops ++ [Add x])) = Some n' ->
+  get_node_by hash key (run hash ops) <> Some n' ->
+  n' = x.
+Proof.
+  intros hash ops x key n'. unfold run. rewrite fold_left_app. cbn.
+  apply add_moves_only_to_new, inv_run.
+Qed.
+Print Assumptions c17_add_moves_only_to_new.
+
+(* "removing a member moves only the keys that were mapped to it" *)
+Theorem c17_remove_moves_only_own : forall hash ops x key n,
+  get_node_by hash key (run hash ops) = Some n -> n <> x ->
+  get_node_by hash key (run hash (ops ++ [Remove x])) = Some n.
+Proof.
+  intros hash ops x key n. unfold run. rewrite fold_left_app. cbn.
+  apply remove_moves_only_own, inv_run.
+Qed.
+Print Assumptions c17_remove_moves_only_own.
+
+(* ... and the removed member keeps no key *)
+Theorem c17_removed_owns_nothing : forall hash ops x key,
+  get_node_by hash key (run hash (ops ++ [Remove x])) <> Some x.
+Proof.
+  intros hash ops x key. unfold run. rewrite fold_left_app. cbn.
+  apply removed_owns_nothing, inv_run.
+Qed.
+Print Assumptions c17_removed_owns_nothing.
+
+(* the code's binary search over the sorted point list finds the owner of the first point
+   strictly greater than the key's hash, or of the smallest point if there is none *)
+Theorem c17_search_is_successor : forall hash ops key,
+  StronglySorted Z.lt (sorted_hash (run hash ops)) /\
+  get_node_by hash key (run hash ops) =
+  option_map snd
+    (match find (fun e => hash key <? fst e) (circle (run hash ops)) with
+     | Some e => Some e
+     | None => hd_error (circle (run hash ops))
+     end).
+Proof.
+  intros hash ops key. split.
+  - apply sorted_hash_sorted with (hash := hash), inv_run.
+  - unfold get_node_by. rewrite get_node_at_spec; [reflexivity | apply (inv_run hash ops)].
+Qed.
+Print Assumptions c17_search_is_successor.
+
+(* Non-vacuity.  With the code's own FNV-1a: the replica strings "n151-18" and "n2186-10"
+   collide, so the rings below contain a point claimed by two members — the theorems above
+   cover them; the ring is not empty, and a concrete lookup computes. *)
+Definition n151 : name := [110; 49; 53; 49].
+Definition n2186 : name := [110; 50; 49; 56; 54].
+Definition zed : name := [122].
+
+Example c17_example_collision :
+  fnv1a (replica n151 18) = 1052282076 /\ fnv1a (replica n2186 10) = 1052282076 /\
+  In 1052282076 (points fnv1a n151) /\ In 1052282076 (points fnv1a n2186).
+Proof. vm_compute. repeat split; auto 30. Qed.
+
+Example c17_example_ring :
+  let s := run fnv1a [Add n151; Add zed; Add n2186] in
+  circle s <> [] /\ length (circle s) = 56%nat /\
+  circle_get 1052282076 (circle s) = Some n151 /\
+  (* re-adding a member leaves membership, and the ring, unchanged *)
+  step fnv1a s (Add n2186) = s /\
+  get_node_by fnv1a [107; 101; 121; 49] s = Some n2186 /\
+  get_node_by fnv1a [107; 101; 121; 49] (step fnv1a s (Remove n151)) = Some n2186.
+Proof. vm_compute. repeat split; try reflexivity. discriminate. Qed.
